@@ -362,7 +362,7 @@ def run_both(prop, cases):
                 out[idx]["model"] = "( model-free )"
                 out[idx]["diverge"] = False
                 out[idx]["cm"] = "1"
-            if any(t in out[idx]["model"] for t in NOORACLE):
+            if any(t in out[idx]["model"] for t in NOORACLE) and out[idx]["impl"] not in (CRASH, HANG):
                 # the case carries no oracle answer for something the model needed: not a valid case
                 out[idx]["model"] = BAD
                 out[idx]["diverge"] = False
